@@ -7,11 +7,8 @@ The translated code reaches the proposition under construction through the alias
 `stack`; the alias is detached by the two `pop()`s and the `append(operator)` of the `and` / `or` branch, and the proof
 shows that it is live whenever the code uses it (states `s_is`, `s_hedge | s_term`).
 
-**The model and the code differ** on engines that have a variable without terms: Python treats such a variable as
-false (`Variable.__len__`), so `variables.get(token)` followed by `if variable:` does not recognise its name, whereas
-`Op.aStep` tests `(e.findVar token).isSome`.  Example: variable `A` without terms, antecedent `A is any` - the model
-loads `A is any`, Python raises `SyntaxError` (expected variable or logical operator, but found 'A').  The tie is
-therefore stated under the hypothesis that every variable of the engine has a term (`code_antecedentLoad_partial`). -/
+Python's `if variable:` (a variable without terms is false, `Variable.__len__`) is `Py.Load.varTruthy` in the code and
+part of `EngineInfo.findVar` in the model: the name of a variable without terms is not recognised by either. -/
 
 set_option linter.unusedSimpArgs false
 
@@ -28,16 +25,16 @@ def exprA : Expression → Option ANode
     | some a, some b => some (.op n a b)
     | _, _ => none
 
-theorem findVar_eq_varGet (e : EngineInfo) (n : String) : e.findVar n = varGet e.vars n := rfl
+theorem findVar_eq_varGet (e : EngineInfo) (n : String) :
+    e.findVar n = (varGet e.vars n).filter VarInfo.truthy := rfl
+
+theorem varGet_of_findVar {e : EngineInfo} {n : String} {v : VarInfo} (h : e.findVar n = some v) :
+    varGet e.vars n = some v := by
+  rw [findVar_eq_varGet, Option.filter_eq_some_iff] at h
+  exact h.1
 
 theorem findVar_name {e : EngineInfo} {n : String} {v : VarInfo} (h : e.findVar n = some v) : v.name = n := by
-  unfold EngineInfo.findVar at h
-  have := List.find?_some h
-  simpa using this
-
-theorem findVar_mem {e : EngineInfo} {n : String} {v : VarInfo} (h : e.findVar n = some v) : v ∈ e.vars := by
-  unfold EngineInfo.findVar at h
-  have := List.mem_of_find?_eq_some h
+  have := List.find?_some (varGet_of_findVar h)
   simpa using this
 
 /-- what the state of the translated loop and the configuration of the model's loop have in common -/
@@ -54,17 +51,9 @@ def AAgree (e : EngineInfo) (r : Except ErrKind (AFlags × List ANode)) (g : Py.
   | .error k => g = .error k.toPy
   | .ok (st, stack) => ∃ σ', g = .ok σ' ∧ ARel e st stack σ'
 
-/-- when every variable has a term, Python's truth value of `variables.get(token)` is "the name is known" -/
-theorem varTruthy_findVar {e : EngineInfo} (hterms : ∀ v ∈ e.vars, v.terms ≠ []) (t : String) :
-    varTruthy (varGet e.vars t) = (e.findVar t).isSome := by
-  rw [← findVar_eq_varGet]
-  cases h : e.findVar t with
-  | none => rfl
-  | some v =>
-    have := hterms v (findVar_mem h)
-    cases hv : v.terms with
-    | nil => exact absurd hv this
-    | cons a l => simp [varTruthy, hv]
+/-- Python's truth value of `variables.get(token)` is "the model finds the name" -/
+theorem varTruthy_findVar (e : EngineInfo) (t : String) : varTruthy (varGet e.vars t) = (e.findVar t).isSome := by
+  rw [varTruthy_eq, findVar_eq_varGet]
 
 /-- the branch `if state & s_variable: variable = variables.get(token); if variable: ...` when the token is a variable -/
 theorem ARel.push {e : EngineInfo} {st : AFlags} {stack : List ANode} {σ σ' : Antecedent_load.S} {t : String}
@@ -77,7 +66,6 @@ theorem ARel.push {e : EngineInfo} {st : AFlags} {stack : List ANode} {σ σ' : 
     rw [findVar_name hv]; exact hv
 
 theorem code_aStep_var (e : EngineInfo) (post : String → Py.M String) (text t : String) (ts : List String)
-    (hterms : ∀ v ∈ e.vars, v.terms ≠ [])
     (ih : ∀ st stack σ, ARel e st stack σ → AAgree e (aLoop e ts st stack) (Antecedent_load.loop1 e post text ts σ))
     (stack : List ANode) (σ : Antecedent_load.S) (h : ARel e fVariable stack σ) :
     AAgree e (aLoop e (t :: ts) fVariable stack) (Antecedent_load.loop1 e post text (t :: ts) σ) := by
@@ -86,11 +74,11 @@ theorem code_aStep_var (e : EngineInfo) (post : String → Py.M String) (text t 
     · exact h
     all_goals exact absurd h (by decide)
   simp only [Antecedent_load.loop1, aLoop, aStep, fVariable, hs, h.vars, Nat.reduceAnd, Nat.reduceBNe, ↓reduceIte,
-    Bool.true_and, Bool.false_and, Bool.false_eq_true, if_false, varTruthy_findVar hterms]
+    Bool.true_and, Bool.false_and, Bool.false_eq_true, if_false, varTruthy_findVar]
   cases hv : e.findVar t with
   | none => simp only [Option.isSome_none, Bool.false_eq_true, if_false, AAgree, ErrKind.toPy]
   | some v =>
-    have hv' : varGet e.vars t = some v := hv
+    have hv' : varGet e.vars t = some v := varGet_of_findVar hv
     simp only [Option.isSome_some, if_true, hv', Py.deref, bind, Except.bind]
     exact ih fIs _ _ (h.push hv rfl h.vars.symm rfl rfl)
 
@@ -154,7 +142,6 @@ theorem code_aStep_hedgeTerm (e : EngineInfo) (post : String → Py.M String) (t
           Or.inr (Or.inr ⟨Or.inr ⟨rfl, rfl⟩, rfl, _, _, rfl, hfound⟩)⟩
 
 theorem code_aStep_varAndOr (e : EngineInfo) (post : String → Py.M String) (text t : String) (ts : List String)
-    (hterms : ∀ v ∈ e.vars, v.terms ≠ [])
     (ih : ∀ st stack σ, ARel e st stack σ → AAgree e (aLoop e ts st stack) (Antecedent_load.loop1 e post text ts σ))
     (stack : List ANode) (σ : Antecedent_load.S) (h : ARel e fVariableAndOr stack σ) :
     AAgree e (aLoop e (t :: ts) fVariableAndOr stack) (Antecedent_load.loop1 e post text (t :: ts) σ) := by
@@ -164,10 +151,10 @@ theorem code_aStep_varAndOr (e : EngineInfo) (post : String → Py.M String) (te
     · exact h
     all_goals exact absurd h (by decide)
   simp only [Antecedent_load.loop1, aLoop, aStep, fVariableAndOr, hs, h.vars, Nat.reduceAnd, Nat.reduceBNe, ↓reduceIte,
-    Bool.true_and, Bool.false_and, Bool.false_eq_true, if_false, varTruthy_findVar hterms]
+    Bool.true_and, Bool.false_and, Bool.false_eq_true, if_false, varTruthy_findVar]
   cases hv : e.findVar t with
   | some v =>
-    have hv' : varGet e.vars t = some v := hv
+    have hv' : varGet e.vars t = some v := varGet_of_findVar hv
     simp only [Option.isSome_some, if_true, hv', Py.deref, bind, Except.bind]
     exact ih fIs _ _ (h.push hv rfl h.vars.symm rfl rfl)
   | none =>
@@ -212,27 +199,25 @@ theorem code_aStep_varAndOr (e : EngineInfo) (post : String → Py.M String) (te
                 Or.inr (Or.inl ⟨rfl, rfl⟩)⟩
 
 /-- the loop of the translated code follows the loop of the model -/
-theorem code_aLoop (e : EngineInfo) (post : String → Py.M String) (text : String)
-    (hterms : ∀ v ∈ e.vars, v.terms ≠ []) : ∀ (ts : List String) (st : AFlags) (stack : List ANode)
+theorem code_aLoop (e : EngineInfo) (post : String → Py.M String) (text : String) : ∀ (ts : List String) (st : AFlags) (stack : List ANode)
     (σ : Antecedent_load.S), ARel e st stack σ →
     AAgree e (aLoop e ts st stack) (Antecedent_load.loop1 e post text ts σ)
   | [], st, stack, σ, h => by
     simp only [aLoop, Antecedent_load.loop1, AAgree]
     exact ⟨σ, rfl, h⟩
   | t :: ts, st, stack, σ, h => by
-    have ih := code_aLoop e post text hterms ts
+    have ih := code_aLoop e post text ts
     rcases h.state with ⟨rfl, _⟩ | ⟨rfl, _⟩ | ⟨(⟨rfl, _⟩ | ⟨rfl, _⟩), _⟩
-    · exact code_aStep_var e post text t ts hterms ih stack σ h
-    · exact code_aStep_varAndOr e post text t ts hterms ih stack σ h
+    · exact code_aStep_var e post text t ts ih stack σ h
+    · exact code_aStep_varAndOr e post text t ts ih stack σ h
     · exact code_aStep_is e post text t ts ih stack σ h
     · exact code_aStep_hedgeTerm e post text t ts ih stack σ h
 
-/-- **`Antecedent.load` as translated from the source against the model `Op.antecedentLoadPostfix`**, for engines
-    whose variables all have a term and for any behaviour `post` of the callee `Function.infix_to_postfix`: an empty
+/-- **`Antecedent.load` as translated from the source against the model `Op.antecedentLoadPostfix`**, for every engine
+    and for any behaviour `post` of the callee `Function.infix_to_postfix`: an empty
     text is a `SyntaxError`, an exception of the callee is passed on, and on the tokens of the postfix text the code
     raises the exception class the model predicts and otherwise assigns to `self.expression` the tree of the model -/
-theorem code_antecedentLoad_partial (e : EngineInfo) (post : String → Py.M String) (text : String)
-    (hterms : ∀ v ∈ e.vars, v.terms ≠ []) :
+theorem code_antecedentLoad (e : EngineInfo) (post : String → Py.M String) (text : String) :
     if text = "" then Antecedent_load.run e post text {} = .error .syntax else
     match post text with
     | .error x => Antecedent_load.run e post text {} = .error x
@@ -253,7 +238,7 @@ theorem code_antecedentLoad_partial (e : EngineInfo) (post : String → Py.M Str
       generalize hg : Antecedent_load.loop1 e post text (Py.split s) _ = g
       have hl : AAgree e (aLoop e (Py.split s) fVariable []) g := by
         rw [← hg]
-        exact code_aLoop e post text hterms (Py.split s) fVariable [] _ ⟨rfl, rfl, Or.inl ⟨rfl, rfl⟩⟩
+        exact code_aLoop e post text (Py.split s) fVariable [] _ ⟨rfl, rfl, Or.inl ⟨rfl, rfl⟩⟩
       clear hg
       revert hl
       generalize aLoop e (Py.split s) fVariable [] = r
@@ -307,17 +292,5 @@ theorem code_antecedentLoad_partial (e : EngineInfo) (post : String → Py.M Str
             Bool.false_eq_true, if_true, if_false, ErrKind.toPy]
         · simp only [fHedgeTerm, hs, Nat.reduceAnd, Nat.reduceBNe, Bool.not_false, Bool.not_true, Bool.or_self,
             Bool.false_eq_true, if_true, if_false, ErrKind.toPy]
-
-/-- the exception of a run, if any -/
-def errOf {α : Type} (g : Py.M α) : Option Py.Err := match g with | .error x => some x | .ok _ => none
-
-/-- the hypothesis of `code_antecedentLoad_partial` cannot be dropped: for a variable `A` without terms the model loads
-    the postfix tokens `A is any`, the loop of the code (like Python) raises `SyntaxError` at `A` -/
-theorem antecedentLoad_model_differs :
-    let e : EngineInfo := ⟨[⟨"A", false, true, []⟩], ["any"]⟩
-    antecedentLoadPostfix e ["A", "is", "any"] = .ok (.prop "A" ["any"] none) ∧
-    errOf (Antecedent_load.loop1 e (fun _ => .ok "A is any") "A is any" ["A", "is", "any"]
-      { state := 1, variables_ := e.vars }) = some .syntax := by
-  decide
 
 end Op
